@@ -13,7 +13,11 @@ THEOREMS = ['Tbox.C09.' + t for t in [
     'C09_render_fields', 'C09_render_marker', 'C09_render_marker_counterexample',
     'C09_tables', 'C09_render', 'C09_render_sync', 'C09_render_syslog', 'C09_render_marker_all',
     'C09_flushW_refines_flush', 'C09_file_write_faults', 'C09_file_partial_write_counterexample',
-    'C09_file_whole_records', 'C09_file_rollover', 'C09_disable_flushes']]
+    'C09_file_whole_records', 'C09_file_rollover', 'C09_disable_flushes',
+    'C09_flushK_refines_flush', 'C09_file_whole_records_faults', 'C09_file_faults_on_disk', 'C09_file_fault_recovery',
+    'C09_disable_retry_counterexample', 'C09_file_midbatch_rollover_counterexample', 'C09_file_persistent_open_failure', 'C09_flushK_len',
+    'C09_stdout_faults', 'C09_stdout_short_write_counterexample',
+    'C09_truncate_width', 'C09_vsnprintf_negative_counterexample', 'C09_puts_width', 'C09_reentrant_sink_deadlocks']]
 SOURCES = ['modules/log/sink.cpp', 'modules/log/async_sink.cpp', 'modules/log/async_file_sink.cpp',
            'modules/log/async_stdout_sink.cpp', 'modules/log/async_syslog_sink.cpp', 'modules/log/sync_stdout_sink.cpp',
            'modules/util/async_pipe.cpp', 'modules/util/buffer.cpp', 'modules/util/fs.cpp',
@@ -34,23 +38,37 @@ TRUSTED = ['model lean/TboxModel/C09/Model.lean hand-written from log_impl.cpp, 
            'formatted length and stores size-1 bytes; write() is complete; log file names sort by creation (second resolution + numeric suffix)',
            'level letters and colour codes are regenerated from log_impl.cpp by pre_lean on every run (lean/TboxModel/C09/GenTables.lean); '
            'C09_tables re-checks them (letters as documented, one well-formed SGR code per level)',
-           'harness interposition: fd 1 redirected to a capture file for the stdout sinks, syslog()/vsyslog() captured, write(2) on log files cut short '
-           'according to the wfault plan',
+           'harness interposition: fd 1 redirected to a capture file for the stdout sinks, syslog()/vsyslog() captured; every system call the sinks make on '
+           'the objects under test - open(O_CREAT)/write/close on the log files, mkdir of the log directory, symlink of latest.log, write on fd 1 by the '
+           'async stdout sink - takes its answer from the fault plan of the op file (kfault: call index -> short count | ZERO | EINTR | EAGAIN | ENOSPC EIO '
+           'EFBIG EDQUOT EPIPE EMFILE EACCES EEXIST, transient or persistent) and is recorded (K lines); the acceptor replays the recorded calls through '
+           'flushKLen (= length image of flushK, C09_flushK_len) with the kernel answers as the oracle (model-internal class: a divergence there alone is '
+           'reported as no-failing-input-found); SyncStdoutSink goes through stdio, whose internal write calls cannot be interposed (trusted)',
+           'pthread_mutex_lock/unlock are interposed only to detect a re-lock of a held non-recursive mutex inside the re-entrancy probe (EDEADLK instead of blocking for ever)',
            'data-race freedom itself is not exhibited by the model: it is searched with ThreadSanitizer in the thorough tier (1-8 threads logging while '
            'the main thread enables/disables/reconfigures sinks, also concurrently: runc)']
 ASSUMPTIONS = ['module, function and file names < 1000 bytes (each snprintf piece fits the 1 KiB stack buffer; longer ones over-read it: outside the quantifier)',
                'module/function/file strings outlive the asynchronous back end (the pipe carries the pointers, not the characters)',
-               'sizes < 2^32; enableColor() is called only while the sink has no record in flight (enable_color_ is an unsynchronised bool)',
-               'write(2) on a log file may be short (oracle) but does not fail for ever; stdout and syslog writes are complete; the log directory is not modified by others',
+               'puts-path strings < 2^32 bytes (C09_puts_width: strlen narrows to uint32 before the comparison; a 4 GiB string is not driven); the formatted text + 1 '
+               'fits the thread stack (char buffer[buff_size] is a VLA); limits <= SIZE_MAX; enableColor() is called only while the sink has no record in flight '
+               '(enable_color_ is an unsynchronised bool)',
+               'what the kernel refuses for ever cannot be on disk: it is retained in memory without bound (C09_file_whole_records_faults); close() failing is ignored '
+               'by the code (data the kernel drops at close is outside the model); a hard error on fd 1 drops the rest of that batch (C09_stdout_faults); '
+               'syslog and stdio writes are complete; the log directory is not modified by others; setFilePath/Prefix/SyncEnable are not called while a tail is cached',
+               'channel functions registered with LogAddPrintfFunc do not log themselves (C09_reentrant_sink_deadlocks: they would block for ever on the plain std::mutex; '
+               'the library sinks never log under the lock) - user callbacks are not in the quantifier of the statement',
                'AsyncFileSink::cleanup() has not been called before a later enable (it zeroes pid_ and every later flush returns early)']
 RULE = ('cases = sink set-ups (0-2 in-memory sinks through the public Sink API with filter tables, 0-2 real AsyncFileSinks with file limits 1 B .. 1 MiB '
-        'and pipe buffers 1 B .. 10 KiB, SyncStdoutSink / AsyncStdoutSink / AsyncSyslogSink, colour on and off, short-write plans for the log files) + 1-3 runs of 1-8 logging threads (message lengths 0..max+5, around 2047/2048/2049 and around max, '
+        'and pipe buffers 1 B .. 10 KiB, SyncStdoutSink / AsyncStdoutSink / AsyncSyslogSink, colour on and off, short-write plans for the log files, kernel fault schedules (kfault: short count then hard error then recovery swept over every write index at '
+        'limits from below one record up, failing open/mkdir at roll-over, persistent refusal, EINTR runs, failing close/symlink, fd-1 short/EINTR/EAGAIN/EPIPE), width family '
+        '(limits and lengths around 2^16, printf field widths up to INT_MAX and beyond, %lc encoding failure), a re-entrant channel function) + 1-3 runs of 1-8 logging threads (message lengths 0..max+5, around 2047/2048/2049 and around max, '
         'max in {0,10,2048,102400,...}, printf/puts/null-format calls, levels -3..10) + reconfiguration between and DURING runs (runc), disable/enable; non-trivial = a run with >= 2 '
         'active threads AND (a truncation, a filter drop, or a file sink holding records); distinct = distinct op text')
 LEVEL_TEXT = ('Lean 4 theorems over a model of the logging path: truncation loop (all lengths, all maxima), filter table, contiguity/per-thread order/'
               'exactly-once of dispatch under the global lock for every schedule (with the unlocked counterexample), re-framing of the pipe stream for '
               'EVERY chunking and every header layout, rendering of every sink (file, sync/async stdout, syslog; colour on/off; tables regenerated from the source), '
-              'file rollover with whole records, flush on disable, no loss/duplication/split under every sequence of short writes; tied to the real code on every '
+              'file rollover with whole records, flush on disable, no loss/duplication/split for EVERY kernel fault schedule (short counts, EINTR, hard errors, failing open; '
+              'retained tail, retry on disable), the stdout sink under every fd-1 fault schedule, the width-carrying format loop (int/size_t/uint32), re-entrant channel deadlock; tied to the real code on every '
               'run by a trace acceptor over multi-threaded runs against in-memory sinks, a real AsyncFileSink directory, captured fd 1 and captured syslog(); '
               'ThreadSanitizer pass in the thorough tier')
 LEVEL_NOTE = ('trusted: Lean kernel, hand-written model + trace-acceptor tie (coverage bounded by the generator, measured), async pipe by contract (C10), '
@@ -80,8 +98,103 @@ def lens_for(rng, mx, tier, small_only):
     return rng.choice([0, 1, 100, 500, 1023, 1024, 1025, 3000])
 
 
+HARD = ['ENOSPC', 'EIO', 'EFBIG', 'EDQUOT', 'ZERO']
+
+
+def rand_plan(rng, is_file, n=None):
+    """a transient fault schedule: short counts, EINTR, hard errors at the first write calls; open/close/symlink/mkdir failures"""
+    ents = {}
+    for _ in range(n or rng.choice([1, 2, 3, 5, 8])):
+        i = rng.randrange(0, 10)
+        r = rng.random()
+        if r < 0.4: a = str(rng.choice([1, 2, 5, 30, 60, 71, 72, 73, 100, 150, 2000]))
+        elif r < 0.6: a = 'EINTR'
+        elif is_file: a = rng.choice(HARD)
+        else: a = rng.choice(['EAGAIN', 'EAGAIN', 'EINTR', '3'])
+        ents['w%d' % i] = a
+    if is_file:
+        if rng.random() < 0.3: ents['o%d' % rng.randrange(0, 4)] = rng.choice(['EMFILE', 'ENOSPC', 'EACCES'])
+        if rng.random() < 0.15: ents['d0'] = 'EACCES'
+        if rng.random() < 0.15: ents['c%d' % rng.randrange(0, 3)] = rng.choice(['EIO', 'EINTR'])
+        if rng.random() < 0.15: ents['y%d' % rng.randrange(0, 3)] = rng.choice(['EEXIST', 'EACCES'])
+    return ' '.join('%s=%s' % kv for kv in sorted(ents.items()))
+
+
+def recs(n, T=1, lens=(20, 33, 47, 5, 60, 0, 28, 41), kinds='ps'):
+    return ' '.join('%d:%d:%s:f:x.cpp:%d:%s:%d:%d' % (i % T, 1 + i % 7, 'ab'[i % 2], i, kinds[i % len(kinds)], lens[i % len(lens)], i) for i in range(n))
+
+
+def fault_cases(rng, tier):
+    """kernel fault schedules placed exactly at the roll-over boundary +-1 write: `short count, then a hard error, then recovery`
+    swept over every write index, limits from below one record up; failing open()/mkdir() when a new file is due; persistent refusal;
+    EINTR runs; failing close()/symlink(); the async stdout sink with short counts / EINTR / EAGAIN / a hard error"""
+    quick = tier == 'quick'
+    # (1) one flush per record (single-byte pipe buffers): write call i is the flush of record i (plus retries)
+    limits = [1, 60, 130, 250, 1000]
+    for L in limits:
+        idxs = range(0, 7) if not quick else [rng.randrange(0, 3), rng.randrange(3, 7)]
+        for i in idxs:
+            short = rng.choice([1, 30, 59, 60, 61, 70]) if L < 100 else rng.choice([1, 30, 70])
+            hard = rng.choice(HARD)
+            for d in ([0] if quick else [0, 1]):
+                yield ['sink file %d 1 1 2 1' % L, 'kfault 1 w%d=%d w%d=%s' % (i, short, i + 1 + d, hard), 'run 1 ' + recs(8), 'off 1',
+                       'on 1', 'run 1 ' + recs(2), 'off 1']
+    # (2) one batch for everything (big pipe buffer: delivered at disable): the retry in onDisable() writes the tail
+    for L in ([1, 100, 400] if quick else [1, 50, 100, 200, 400, 1000]):
+        short = rng.choice([L, L + 1, max(1, L - 1), 150])
+        yield ['sink file %d 10240 2 20 100' % L, 'kfault 1 w0=%d w1=%s' % (short, rng.choice(HARD)), 'run 2 ' + recs(10, 2), 'off 1']
+        yield ['sink file %d 10240 2 20 100' % L, 'kfault 1 w0=%d w1=EINTR w2=%s w3=EINTR w4=%d' % (short, rng.choice(HARD), 7), 'run 2 ' + recs(10, 2), 'off 1',
+               'on 1', 'run 1 ' + recs(3), 'off 1']
+    # (3) open()/mkdir() refused when a new file is due (every flush rolls over: limit 1), transient and persistent
+    for e in (['EMFILE'] if quick else ['EMFILE', 'ENOSPC', 'EACCES']):
+        for i in ([0, 2] if quick else [0, 1, 2, 3]):
+            yield ['sink file 1 1 1 2 1', 'kfault 1 o%d=%s o%d=%s' % (i, e, i + 1, e), 'run 1 ' + recs(6), 'off 1', 'on 1', 'run 1 ' + recs(2), 'off 1']
+    yield ['sink file 1 1 1 2 1', 'kfault 1 d0=EACCES d1=EACCES', 'run 1 ' + recs(5), 'off 1', 'on 1', 'run 1 ' + recs(2), 'off 1']
+    yield ['sink file 100 1 1 2 1', 'kfault 1 O2=EMFILE', 'run 1 ' + recs(8), 'off 1', 'on 1', 'run 1 ' + recs(2), 'off 1']
+    # (4) persistent refusal: everything after write i is retained in memory, the files hold a prefix
+    yield ['sink file 150 1 1 2 1', 'kfault 1 w2=40 W3=ENOSPC', 'run 1 ' + recs(8), 'off 1']
+    yield ['sink file 1000000 10240 2 20 100', 'kfault 1 w0=100 W1=EIO', 'run 2 ' + recs(12, 2), 'off 1']
+    yield ['sink file 60 1 1 2 1', 'kfault 1 W0=ENOSPC', 'run 1 ' + recs(4), 'off 1']
+    # (4') a transient error on the last batch, nothing logged afterwards: disable() itself must retry the tail
+    for L in (1, 100000):
+        yield ['sink file %d 1 1 2 1' % L, 'kfault 1 w1=%s' % rng.choice(HARD), 'run 1 ' + recs(2), 'settle 60', 'off 1']
+        yield ['sink file %d 1 1 2 1' % L, 'kfault 1 w0=7 w1=%s' % rng.choice(HARD), 'run 1 ' + recs(1), 'settle 60', 'off 1', 'on 1', 'run 1 ' + recs(2), 'off 1']
+    # (5) EINTR runs, close()/symlink() failing: no influence on the records
+    yield ['sink file 100 1 1 2 1', 'kfault 1 w0=EINTR w1=EINTR w2=EINTR w3=10 w4=EINTR c0=EIO c1=EINTR y0=EEXIST y1=EACCES', 'run 1 ' + recs(8), 'off 1']
+    # (6) the async stdout sink: write(1) short / EINTR / EAGAIN (non-blocking pipe), every index; one hard error
+    for i in (range(0, 4) if not quick else [0, 2]):
+        yield ['sink aout 1 1 2 1', 'kfault 1 w%d=%d w%d=EAGAIN w%d=EINTR w%d=1' % (i, rng.choice([1, 5, 40]), i + 1, i + 2, i + 3), 'run 1 ' + recs(6), 'off 1']
+    yield ['sink aout 10240 2 20 100', 'color 1 1', 'kfault 1 w0=100 w1=EAGAIN w2=EAGAIN w3=33 w4=EINTR', 'run 2 ' + recs(10, 2), 'off 1']
+    yield ['sink aout 1 1 2 1', 'kfault 1 w1=3 w2=EPIPE', 'run 1 ' + recs(5), 'off 1']
+    # (7) random plans
+    for _ in range(10 if quick else 120):
+        is_file = rng.random() < 0.8
+        L = rng.choice([1, 40, 80, 150, 300, 1000, 100000])
+        sink = ('sink file %d %d 1 %d %d' % (L, rng.choice([1, 1, 7, 100, 10240]), rng.choice([1, 2, 20]), rng.choice([1, 5, 100]))) if is_file else \
+               ('sink aout %d 1 %d %d' % (rng.choice([1, 7, 100, 10240]), rng.choice([1, 2, 20]), rng.choice([1, 5, 100])))
+        T = rng.choice([1, 2, 3])
+        yield [sink, 'kfault 1 ' + rand_plan(rng, is_file, rng.choice([2, 4, 8])), 'run %d %s' % (T, recs(rng.choice([4, 8, 12]), T)), 'off 1', 'on 1',
+               'run 1 ' + recs(rng.choice([1, 3])), 'off 1']
+
+
+def width_cases(rng, tier):
+    """conversions int -> size_t -> uint32_t in LogPrintfFunc: limits and lengths on both sides of 2^16, the formatted length as a printf
+    field width (no memory needed) up to INT_MAX and beyond (vsnprintf fails: EOVERFLOW), an encoding error (%lc)"""
+    for mx in (65535, 65536, 65537):
+        yield ['max %d' % mx, 'sink rec', 'sink file 1000000 10240 2 20 100',
+               'run 2 ' + ' '.join('%d:4:b:run:y.cpp:%d:%s:%d:%d' % (i % 2, i, 'pswf'[i % 4], mx + d, i) for i, d in enumerate((-1, 0, 1, 2, -2, 0, 1, 0))), 'off 2']
+    yield ['sink rec', 'sink sout', 'run 2 0:5:a:f:x.cpp:1:e:0:1 1:5:a:f:x.cpp:2:w:1:2 0:5:a:f:x.cpp:3:w:2048:3 1:5:a:f:x.cpp:4:w:2049:4 0:3:b:f:x.cpp:5:e:0:5', 'off 2']
+    yield ['max 3', 'sink rec', 'sink file 100 1 1 2 1', 'run 1 0:5:a:f:x.cpp:1:e:0:1 0:5:a:f:x.cpp:2:w:100000:2 0:5:a:f:x.cpp:3:w:3:3 0:5:a:f:x.cpp:4:w:4:3', 'off 2']
+    yield ['max 200000', 'sink rec', 'run 1 0:5:a:f:x.cpp:1:w:131071:1 0:5:a:f:x.cpp:2:w:131072:2 0:5:a:f:x.cpp:3:w:200001:3 0:5:a:f:x.cpp:4:e:0:4']
+    if tier != 'quick':
+        # INT_MAX bytes of padding take glibc ~10 s per vsnprintf call: thorough only
+        yield ['max 10', 'sink rec', 'run 1 0:5:a:f:x.cpp:1:w:2147483647:1 0:5:a:f:x.cpp:2:o:1:2']
+
+
 def gen_case(rng, tier, conc=0.15):
     ops = []
+    if rng.random() < 0.08:
+        ops.append('reent')
     mx = rng.choice([None, 0, 10, 2048, 102400, 102400, rng.choice([1, 7, 100, 2047, 2049, 5000])])
     if mx is not None:
         ops.append('max %d' % mx)
@@ -112,7 +225,13 @@ def gen_case(rng, tier, conc=0.15):
     for k in files:
         if rng.random() < 0.3:
             ops.append('color %d 1' % k)
-    if files and rng.random() < 0.25:
+    # kernel fault schedules (call index -> short count / errno) on a file sink or the async stdout sink
+    ktargets = [i + 1 for i, o in enumerate([x for x in ops if x.startswith('sink ')]) if o.startswith('sink file') or o.startswith('sink aout')]
+    if ktargets and rng.random() < 0.3:
+        k = rng.choice(ktargets)
+        is_file = [x for x in ops if x.startswith('sink ')][k - 1].startswith('sink file')
+        ops.append('kfault %d %s' % (k, rand_plan(rng, is_file)))
+    elif files and rng.random() < 0.25:
         ops.append('wfault ' + ' '.join(str(rng.choice([0, 1, 2, 5, 30, 71, 72, 73, 100, 2000, 99999])) for _ in range(rng.choice([1, 3, 8, 20]))))
 
     def conc_acts():
@@ -205,6 +324,13 @@ def gen(rng, tier):
            ' '.join('%d:%d:%s:f:x.cpp:%d:p:%d:%d' % (i % 4, i % 8, 'ab'[i % 2], i, i % 50, i) for i in range(120)), 'off 2']
     yield ['color 1 1', 'sink sout', 'sink aout 7 1 1 1', 'sink syslog 0 1 1 1', 'color 1 2', 'wfault', 'wfault x', 'runc 2 1 0:5:a:f:x.cpp:1:p:3:1',
            'runc 1 1 max,5 0:5:a:f:x.cpp:1:p:3:1', 'run 1 0:5:a:f:x.cpp:1:p:3:1', 'color 1 1', 'off 1', 'color 1 1', 'runc 1 1 frob,1 0:5:a:f:x.cpp:1:p:3:1']
+    yield ['reent', 'sink rec', 'run 2 0:5:a:f:x.cpp:1:p:3:1 1:5:a:f:x.cpp:1:p:3:1', 'reent']
+    yield ['kfault 1 w0=1', 'sink rec', 'kfault 1 w0=1', 'sink file 100 1 1 2 1', 'kfault 2 w0=0', 'kfault 2 x0=1', 'kfault 2 w0=EFOO', 'kfault 2 o0=5', 'kfault 2', 'kfault 2 w00000=1',
+           'kfault 2 w0=1 o0=EMFILE', 'run 1 0:5:a:f:x.cpp:1:p:30:1', 'off 2', 'reent 1', 'run 1 0:5:a:f:x.cpp:1:w:2147483648:1', 'run 1 0:5:a:f:x.cpp:1:p:200001:1', 'settle 0', 'settle 201', 'settle 5']
+    for c in fault_cases(rng, tier):
+        yield c
+    for c in width_cases(rng, tier):
+        yield c
     for c in paced_cases(rng):
         yield c
     for _ in range(n):
@@ -345,5 +471,11 @@ def check(tier, seed, replay=None):
         rc = vlib.standard_check(P, tier, seed, replay)
         return 1 if (rc or rc_t) else 0
     finally:
-        for d in glob.glob('/tmp/C09-[0-9]*-*'):      # directories of crashed harness processes
-            shutil.rmtree(d, ignore_errors=True) if os.path.isdir(d) else os.unlink(d)
+        for d in glob.glob('/tmp/C09-[0-9]*-*'):      # directories of crashed harness processes (never those of a harness that is still running)
+            m = re.match(r'/tmp/C09-(\d+)-', d)
+            if m and os.path.exists('/proc/' + m.group(1)):
+                continue
+            try:
+                shutil.rmtree(d, ignore_errors=True) if os.path.isdir(d) else os.unlink(d)
+            except OSError:
+                pass
